@@ -690,6 +690,22 @@ def stale_memo_fields(ctx: Ctx, cls):
                     f = self_field(a)
                     if f and f != k and isinstance(a.ctx, ast.Load):
                         srcs.add(f)
+                    # ... also what a method of the same object reads that the value is worked out with
+                    if isinstance(a, ast.Call) and isinstance(a.func, ast.Attribute) and isinstance(a.func.value, ast.Name) and a.func.value.id == "self":
+                        for g_ in t.resolve_call(a, m).repo:
+                            if g_.cls is not None and any(k_ is g_.cls for k_ in cls.mro):
+                                todo_, seen_g = [g_], set()
+                                while todo_:
+                                    h_ = todo_.pop()
+                                    if t.fkey(h_) in seen_g or len(seen_g) > 6:
+                                        continue
+                                    seen_g.add(t.fkey(h_))
+                                    for b_ in t.nodes_in(h_, ast.Attribute):
+                                        fb = self_field(b_)
+                                        if fb and fb != k and isinstance(b_.ctx, ast.Load):
+                                            srcs.add(fb)
+                                    for c2 in t.calls_in(h_):
+                                        todo_ += [x_ for x_ in t.resolve_call(c2, h_).repo if x_.cls is not None and any(k_ is x_.cls for k_ in cls.mro)]
                     if isinstance(a, ast.Name) and a.id not in seen_names:
                         seen_names.add(a.id)
                         for kind, b in t.local_bindings(m, a.id):
